@@ -1348,7 +1348,8 @@ theorem insertDefTableOpts_triv (htriv : ∀ s, cx.ends s = List.range' 1 s.leng
       ed.insert cx pos (Block.mk
         (defTableLines cx defs width (o.withDefaults cx).lineSep (o.withDefaults cx).paraSep)
         (o.withDefaults cx).lineSep (!(o.withDefaults cx).noTrailing)).join := by
-  unfold Editor.insertDefTableOpts
+  simp only [Editor.insertDefTableOpts_eq_core]
+  unfold Editor.insertDefTableOptsCore
   simp only
   rw [foldl_longest_term cx htriv defs hne]
   generalize hT : maxLineLen (defs.map (·.1)) = T
